@@ -41,20 +41,50 @@ def cases(draw):
     eps = draw(st.one_of(gen.eps_values(recipe["n"], m, cheap=False).map(lambda e: max(e, 2.0 ** (1 - m))),
                          st.sampled_from([1e-4, 1e-3, 0.01, 0.05])))
     params = {"r": draw(gen.r_values), "eps": eps, "itersLimit": draw(iters)}
+    how = draw(st.sampled_from(["ctor", "ctor", "assign", "rebound", "assign+rebound"]))
+    if "assign" in how:
+        params["assign"] = True
+    if "rebound" in how:
+        params["rebound"] = True      # solver.evolvent.SetBounds(the same box): the grid must stay the configured one
     dt = draw(st.sampled_from(["int", "int", "np64", "np32"]))
     if dt != "int":
         recipe = dict(recipe, density_type=dt)      # the density given as a numpy integer scalar
     sp = draw(gen.start_points(recipe))
     if sp is not None:
         params["startPoint"] = sp                   # every trial point, the first included, lies on the grid
-    return {"recipe": recipe, "params": params, "drive": draw(st.sampled_from(["solve", "steps"]))}
+    case = {"recipe": recipe, "params": params, "drive": draw(st.sampled_from(["solve", "steps"]))}
+    if draw(st.integers(0, 5)) == 0:
+        # the objective raises once, at its k-th call (ValueError / ZeroDivisionError as an unguarded formula does);
+        # the caller goes on with single iterations: every point the objective is asked for lies on the grid
+        case["fault"] = {"at": draw(st.integers(1, 15)), "exc": draw(st.sampled_from(["ValueError", "ZeroDivisionError"]))}
+        case["drive"] = "single-steps"
+    return case
 
 
 def body(case):
     recipe = case["recipe"]
     m = recipe["density"]
     run = Run(recipe, case["params"], record=False)
-    if case["drive"] == "solve":
+    asked = []
+    if case.get("fault"):
+        exc = {"ValueError": ValueError, "ZeroDivisionError": ZeroDivisionError}[case["fault"]["exc"]]
+        run.problem.fail_at, run.problem.fail_exc = case["fault"]["at"], exc
+        real = run.problem.Calculate
+
+        def spy(point, fv):
+            asked.append(tuple(float(v) for v in point.floatVariables))
+            return real(point, fv)
+        run.problem.Calculate = spy
+        for _ in range(min(case["params"]["itersLimit"], 40)):
+            try:
+                run.step(1)
+            except exc:
+                pass
+            except Exception as e:
+                if "outside of interval" not in str(e):
+                    raise
+                break
+    elif case["drive"] == "solve":
         run.solve()
     else:
         try:
@@ -64,7 +94,8 @@ def body(case):
                 raise
     lo, hi = recipe["lower"], recipe["upper"]
     T = float(1 << m)
-    for k, (_, y, _) in enumerate(run.problem.log):
+    points = [(None, y, None) for y in asked] if asked else run.problem.log
+    for k, (_, y, _) in enumerate(points):
         for i, (v, a, b) in enumerate(zip(y, lo, hi)):
             c = (v - a) / (b - a) * T - 0.5
             j = round(c)
